@@ -7,7 +7,9 @@ META = {
     "bounds": "all coefficient pairs |c| <= 2^127-1, all 19x19 scale pairs (incl. every pair whose alignment overflows i128), all 9 integer types over their "
               "whole range in both positions; eq, partial_cmp, cmp; loop-free; feature rkyv: the ArchivedDecimal instantiations of eq / partial_cmp / cmp "
               "and the mixed impls on the feature MIR (quick: every 6th scale pair), Archive::resolve + Deserialize round trip for all (c, p) by a Kani harness",
-    "outside_claim": ["<, <=, >, >=, min, max, != are core's default methods over partial_cmp / cmp / eq (documented behaviour of core, not re-verified)",
+    "outside_claim": ["<, <=, >, >=, min, max, clamp, != are core's default methods over partial_cmp / cmp / eq (documented behaviour of core, not re-verified); "
+                      "the 'overrides' case shows on every run that the crate's MIR contains no own lt / le / gt / ge / ne / min / max / clamp for Decimal operands - if one "
+                      "appears, lt / le / gt / ge / ne are executed against the value comparison and min / max / clamp end the check inconclusive",
                       "reflexivity / antisymmetry / transitivity follow from agreement with the order of the rationals (stated, not separately encoded)",
                       "rkyv's serializer / validator plumbing (to_bytes, check_archived_root); counterexamples in the rkyv feature build are not replayed natively "
                       "(the replay driver is built without the feature)", "opt-level / LLVM"],
@@ -32,6 +34,7 @@ def cases(ctx):
             if meth == "cmp" and l != r:
                 continue
             out.append({"id": "rkyv|%s|%s-%s" % (meth, l, r), "meth": meth, "lty": l, "rty": r, "pairs": sub, "cfg": "dev-feat", "weight": 15})
+    out.append({"id": "overrides|no own lt/le/gt/ge/ne/min/max/clamp (core's defaults apply)", "meth": "overrides", "weight": 8})
     out.append({"id": "kani|rkyv_resolve_deserialize_identity", "meth": "kani", "harness": "rkyv_resolve_deserialize_identity", "weight": 100})
     for ty in INT9:
         for meth in ("eq", "partial_cmp"):
@@ -57,6 +60,8 @@ def run_case(ctx, case):
         else:
             res.d["inconclusive"].append("kani harness %s: %s %s (log %s)" % (r["harness"], r["status"], r.get("failed_checks"), r["log"]))
         return res.done()
+    if case["meth"] == "overrides":
+        return run_overrides(ctx, res)
     prog = ctx.program(case.get("cfg", "dev"))
     meth, lty, rty = case["meth"], case["lty"], case["rty"]
     ret = {"eq": "bool", "partial_cmp": "Option<Ordering>", "cmp": "Ordering"}[meth]
@@ -90,6 +95,49 @@ def run_case(ctx, case):
     return res.done()
 
 
+OVR = {"lt": lambda X, Y: X < Y, "le": lambda X, Y: X <= Y, "gt": lambda X, Y: X > Y, "ge": lambda X, Y: X >= Y, "ne": lambda X, Y: X != Y}
+
+
+def run_overrides(ctx, res):
+    """the comparison operators the property names beyond eq / partial_cmp / cmp are core's default methods only as long as the crate
+    does not define them itself: look for such definitions in both MIR configurations and check the ones found"""
+    import re
+    for cfg in ("dev", "dev-feat"):
+        prog = ctx.program(cfg)
+        for nm in ("lt", "le", "gt", "ge", "ne", "min", "max", "clamp"):
+            own = [f for f in prog.by_last.get(nm, []) if f.kind == "fn" and f.params and any("Decimal" in t for _, t in f.params[:2])]
+            res.d["vcs"] += 1
+            res.d["distinct"].append("overrides|%s|%s" % (cfg, nm))
+            if not own:
+                res.d["discharged"] += 1
+                continue
+            for f in own:
+                tys = [t.lstrip("&") for _, t in f.params]
+                if nm not in OVR or len(tys) != 2 or f.ret != "bool" or any("Archived" in t for t in tys):
+                    res.d["inconclusive"].append("the crate defines its own %s (%s): not covered by core's default; no spec for it" % (nm, f.name))
+                    continue
+                ok = True
+                for (p, q) in [(p, q) for p in range(19) for q in range(19)]:
+                    if (tys[0] != "Decimal" and p) or (tys[1] != "Decimal" and q):
+                        continue
+                    st = State()
+                    a, x, p_ = DL.operand(st, "x", tys[0], p, None, restrict=False)
+                    b, y, q_ = DL.operand(st, "y", tys[1], q, None, restrict=False)
+                    ex = new_executor(ctx, prog)
+                    outs = ex.explore(start_state(f, [ref_to(a), ref_to(b)], None, st))
+                    res.absorb(ex, outs)
+                    X, Y = T.I(x) * 10 ** q_, T.I(y) * 10 ** p_
+                    for i, o in enumerate(outs):
+                        goal = (T.B(o.value) == OVR[nm](X, Y)) if o.kind == "return" else False
+                        r = res.vc(ctx, "overrides|%s|%s|p=%d,q=%d|path%d" % (cfg, f.name, p_, q_, i), o.state.constraints(), goal, {"x": x, "y": y},
+                                   {"p": p_, "q": q_, "meth": nm, "lty": tys[0], "rty": tys[1]})
+                        ok = ok and r.status == "unsat"
+                if ok:
+                    res.d["discharged"] += 1
+    res.sample({"note": "no own definition of lt/le/gt/ge/ne/min/max/clamp for Decimal operands in the dev and dev-feat MIR" if not res.d["violations"] and not res.d["inconclusive"] else "own definitions found"})
+    return res.done()
+
+
 def replay(ctx, native, v):
     info = v["info"]
     x, y = v["inputs"]["x"], v["inputs"]["y"]
@@ -99,10 +147,12 @@ def replay(ctx, native, v):
                 "observed": "archived comparison / round trip differs from the value comparison", "expected": "comparison by value"}
     lhs = fmt_dec(x, p) if lty == "Decimal" else "%s:%d" % (lty, x)
     rhs = fmt_dec(y, q) if rty == "Decimal" else "%s:%d" % (rty, y)
-    line = "5 bin %s vv %s %s" % ({"eq": "eq", "partial_cmp": "pcmp", "cmp": "cmp"}[meth], lhs, rhs)
+    line = "5 bin %s vv %s %s" % ({"eq": "eq", "partial_cmp": "pcmp", "cmp": "cmp"}.get(meth, meth), lhs, rhs)
     obs = parse_native(native["dev"].ask(line))
     X, Y = x * 10 ** q, y * 10 ** p
-    if meth == "eq":
+    if meth in OVR:
+        exp = ("BOOL", {"lt": X < Y, "le": X <= Y, "gt": X > Y, "ge": X >= Y, "ne": X != Y}[meth])
+    elif meth == "eq":
         exp = ("BOOL", X == Y)
     else:
         exp = ("ORD", "Less" if X < Y else "Equal" if X == Y else "Greater")
@@ -134,5 +184,11 @@ def cosim(ctx, native):
         obs = parse_native(native["dev"].ask("5 bin pcmp vv %s %s" % (fmt_dec(x, p), fmt_dec(y, q))))
         if obs != mine:
             raise RuntimeError("MIR interpreter %r vs native %r" % (mine, obs))
+        # the derived operators (core's default methods) on the native build, same operands
+        X, Y = x * 10 ** q, y * 10 ** p
+        for opn, want in (("lt", X < Y), ("le", X <= Y), ("gt", X > Y), ("ge", X >= Y), ("ne", X != Y), ("eq", X == Y)):
+            got = parse_native(native["dev"].ask("5 bin %s vv %s %s" % (opn, fmt_dec(x, p), fmt_dec(y, q))))
+            if got != ("BOOL", want):
+                raise RuntimeError("native %s of %s, %s gives %r" % (opn, (x, p), (y, q), got))
         n += 1
     return n
